@@ -118,6 +118,9 @@ LifePlans(n, v) ==
     \cup {<<OpArm(k), OpDecodeLit(1, st[1], st[2], "armed"), OpFree(1)>> : k \in 1..MaxFail}
     \cup {<<OpBuild(1), OpArm(k), OpEncode(1, st[1]), OpFree(1)>> : k \in 1..3}
     \cup {<<OpBuild(1), OpAllocSweepEnc(1, st[1]), OpFree(1)>>, <<OpAllocSweepDec(st[1], st[2])>>}
+    \* valid encodings of values the C structure cannot hold: refused (or accepted) cleanly, then freed
+    \cup {<<OpDecodeAny(1, st[1], IF st[1] = "CXER" THEN Ser(XerTokens(Env, n, TRef(n), x), "canon") ELSE Enc(st[1], TRef(n), x),
+                         "unrepresentable"), OpPrint(1), OpFree(1)>> : x \in Overflows(RawEnv, TRef(n), v)}
     \cup {<<OpDecodeAny(1, st[1], m[2], m[1]), OpFree(1)>> : m \in {x \in Mutations(st[2]) : x[1] \in {"truncate", "drop-byte"}}}
     \cup {<<OpDecodeAny(1, st[1], m[2], m[1]), OpReset(1), OpDecodeInto(1, st[1], st[2]), OpFree(1)>> :
             m \in {x \in Mutations(st[2]) : x[1] = "dup-tail"}}
